@@ -76,11 +76,13 @@ ASSUMPTIONS = [
     "in a fresh load, each Runnable as soon as it is constructed, as torchtree.main does; MCMC.run's closing summary "
     "divides by the number of times each operator was used and raises ZeroDivisionError after the last iteration "
     "when an operator was never picked - inevitable with a one-iteration budget, counted, not asserted",
-    "generated alignments contain every nucleotide and at least one transition and one transversion difference "
-    "(empirical frequencies / kappa of degenerate alignments are not this property's subject); trees are strictly "
+    "generated alignments contain every nucleotide (codon data: at each of the three positions) and at least one "
+    "transition and one transversion difference (empirical / F3x4 frequencies and kappa of degenerate alignments - a "
+    "zero frequency makes the likelihood NaN - are not this property's subject); trees are strictly "
     "clock-like, so root-to-tip regression is exact; root heights requested lie above the oldest tip",
-    "cli.main() rescans sys.path for torchtree_* plug-in packages at every call; none is installed, the harness lets "
-    "the scan happen once per process and skips it afterwards",
+    "cli.main() rescans sys.path for torchtree_* plug-in packages and rebuilds the argument parsers of all four "
+    "sub-commands at every call; none is installed, so the harness lets the scan happen once per process, and it only "
+    "lets the parser of the sub-command in use be built (the 'executables' sub-check compares with the real program)",
     "not generated: --engine and plug-ins (external packages), --init_fullrank (needs a checkpoint of a previous "
     "run), NEXUS tree files",
 ]
@@ -109,10 +111,11 @@ AA_UNITS = list("ACDEFGHIKLMNPQRSTVWY") + ["X", "-"]
 _STOPS = {"TAA", "TAG", "TGA"}
 CODON_UNITS = [a + b + c for a in "ACGT" for b in "ACGT" for c in "ACGT" if a + b + c not in _STOPS] + ["---"]
 UNITS = {"nuc": (NUC_UNITS, 4), "aa": (AA_UNITS, 20), "codon": (CODON_UNITS, 61)}
-# forced first columns: every nucleotide, four transitions and two transversions between taxon 0 and 1
+# forced first columns: every nucleotide (at every codon position for codon data), transitions and transversions
+# between taxon 0 and 1
 PREFIX = {
     "nuc": (["A", "C", "G", "T", "A", "C"], ["G", "T", "A", "C", "C", "A"]),
-    "codon": (["ACG", "TAC"], ["GTA", "CCA"]),
+    "codon": (["ACG", "TAC", "GGT", "CTA"], ["GTA", "CCA", "AGC", "TTG"]),
     "aa": ([], []),
 }
 
@@ -278,15 +281,15 @@ class Data:
 
 
 @st.composite
-def dataset(draw, kind):
-    n = draw(st.integers(4, 6))
+def dataset(draw, kind, small=False):
+    n = 4 if small else draw(st.integers(4, 6))
     ins = draw(ins_strategy(n, "uni"))
     dates = draw(st.lists(st.integers(0, 16), min_size=n, max_size=n))
     if len(set(dates)) == 1:
         dates[1] = dates[0] + 1 if dates[0] < 16 else dates[0] - 1
     incr = draw(st.lists(st.integers(1, 12), min_size=n - 1, max_size=n - 1))
     locs = ["a", "b"] + draw(st.lists(st.sampled_from(["a", "b"]), min_size=n - 2, max_size=n - 2))
-    L = draw(st.integers(5, 18)) if kind == "codon" else draw(st.integers(14, 54))
+    L = (5 if small else draw(st.integers(5, 18))) if kind == "codon" else draw(st.integers(14, 54))
     style = draw(st.sampled_from(["plain", "plain", "plain", "dmy"]))
     return {"kind": kind, "ins": ins, "dates": dates, "incr": incr, "locs": locs, "L": L, "seq_seed": draw(st.integers(0, 2**31 - 1)), "style": style}
 
@@ -294,19 +297,19 @@ def dataset(draw, kind):
 _DATA_CACHE = {}
 
 
-def seeded_dataset(kind, j):
+def seeded_dataset(kind, j, small=False):
     """data set number j of a kind: a pure function of VERIF_SEED (drawn by Hypothesis under a derived seed)"""
     from hypothesis import HealthCheck, Phase, given, seed, settings
 
     vseed = int(os.environ.get("VERIF_SEED", "1") or 1)
-    key = (vseed, kind, j)
+    key = (vseed, kind, j, small)
     if key in _DATA_CACHE:
         return _DATA_CACHE[key]
     box = []
 
     @seed(vseed * 1000003 + j * 101 + {"nuc": 0, "codon": 1, "aa": 2}[kind])
     @settings(max_examples=4, database=None, deadline=None, phases=[Phase.generate], suppress_health_check=list(HealthCheck))
-    @given(dataset(kind))
+    @given(dataset(kind, small))
     def draw(d):
         box.append(d)
 
@@ -378,7 +381,8 @@ def tags_of(cmd, opts, data=None):
         t["prior"] = "none"
     if not opts.get("clock"):
         t["clock"] = "none"
-    t["regression"] = bool(opts.get("clock") and opts.get("dates") != "0" and "regression" in (opts.get("rate_init"), opts.get("heights_init")))
+    t["regression_branch"] = bool(opts.get("clock") and "regression" in (opts.get("rate_init"), opts.get("heights_init")))
+    t["regression"] = bool(t["regression_branch"] and opts.get("dates") != "0")
     return t
 
 
@@ -506,6 +510,15 @@ def run_cli(argv):
     old = sys.argv
     sys.argv = ["torchtree-cli"] + list(argv)
     out, err = io.StringIO(), io.StringIO()
+    # main() builds the argument parsers of all sub-commands at every call (13 ms); only the one that is used is
+    # built here (sub-parsers are independent of each other)
+    builders = {"advi": "create_variational_parser", "map": "create_map_parser", "mcmc": "create_mcmc_parser", "hmc": "create_hmc_parser"}
+    saved = {}
+    if argv and argv[0] in builders:
+        for c, name in builders.items():
+            if c != argv[0]:
+                saved[name] = getattr(cli, name)
+                setattr(cli, name, lambda sub: None)
     torch.set_default_dtype(torch.float32)
     try:
         with contextlib.redirect_stdout(out), contextlib.redirect_stderr(err):
@@ -522,6 +535,8 @@ def run_cli(argv):
     finally:
         sys.argv = old
         torch.set_default_dtype(torch.float64)
+        for name, f in saved.items():
+            setattr(cli, name, f)
     return "ok", out.getvalue()
 
 
@@ -684,7 +699,8 @@ def jacobian_oracle(target, joint, blocks):
 
         J = _jac(fy, flat0) if getters else torch.zeros(0, flat0.numel(), dtype=flat0.dtype)
         dep = None
-        if terms:
+        any_free = J.numel() == 0 or bool((J == 0).all(0).any())
+        if terms and any_free:
             delta = 0.173 + 0.061 * torch.arange(flat0.numel(), dtype=flat0.dtype) / max(1, flat0.numel())
 
             def ft(flat):
@@ -725,7 +741,10 @@ def jacobian_oracle(target, joint, blocks):
         expected = 0.0
     free_terms = []
     term_values = {}
-    if terms is not None:
+    if terms is not None and dep is None:
+        for t in terms:
+            term_values[str(getattr(t, "id", None) or type(t).__name__)] = float(t().detach().sum())
+    elif terms is not None:
         off = 0
         spans = []
         for n in sizes:
@@ -748,13 +767,18 @@ def explain_jacobian(info):
     """which single term, removed or added once more, would make the books balance"""
     diff = info["observed"] - info["expected"]
     tol = 1e-7 * max(1.0, abs(info["expected"]))
+    extra, missing = [], []
     for tid, val in sorted(info.get("terms", {}).items()):
         if tid in info.get("free_terms", ()):
             continue
         if abs(val) > tol and abs(diff - val) <= tol:
-            return "extra=" + mask(tid, 60)
+            extra.append(mask(tid, 40))
         if abs(val) > tol and abs(diff + val) <= tol:
-            return "missing=" + mask(tid, 60)
+            missing.append(mask(tid, 40))
+    if extra:
+        return "extra=" + "|".join(extra)
+    if missing:
+        return "missing=" + "|".join(missing)
     return "unexplained"
 
 
@@ -1009,6 +1033,8 @@ def eval_config(cmd, opts, data, res, case):
             return out
         count("grad_finite")
     if alg is not None and cmd == "advi":
+        saved_x = [b.tensor.detach().clone() for b in blocks] if blocks is not None else []
+
         def elbo_grads():
             ps = list(alg.parameters)
             for p in ps:
@@ -1034,14 +1060,9 @@ def eval_config(cmd, opts, data, res, case):
             return out
         count("grad_finite")
         # the ELBO has redrawn x; put the initial point back for clause (d)
-        dic2, ok = try_("load", res, tags, load_spec, json.loads(payload))
-        if not ok:
-            return out
-        dic = dic2[0]
-        alg = algorithm_of(cmd, dic)
-        joint = dic.get("joint")
-        density = dic.get("joint.jacobian")
-        blocks = zblocks_of(cmd, dic, alg)
+        if blocks is not None:
+            for b, t in zip(blocks, saved_x):
+                b.tensor = t
     # ---- (d) Jacobian bookkeeping
     if cmd != "map" and alg is not None:
         if blocks is None:
@@ -1202,7 +1223,8 @@ def expand_core(c):
     return {
         "cmds": list(CMDS),
         "opts": core_opts(model, C, I, clock, heights, tuple(prior) if prior else None),
-        "data": seeded_dataset(kind, c["k"] % NDATA),
+        # the 61-state model costs a second per tuple on 6 taxa x 18 codons: 4 taxa x 7 codons in the enumeration
+        "data": seeded_dataset(kind, c["k"] % NDATA, small=(model == "MG94")),
         "torch_seed": c["k"],
     }
 
@@ -1403,6 +1425,7 @@ def exe_body(case):
             for e in spec:
                 if isinstance(e, dict) and e.get("type") == "Optimizer":
                     e["iterations"] = 1
+                    e.setdefault("options", {})["max_iter"] = 1
         with open("config.json", "w") as f:
             json.dump(spec, f)
         q = subprocess.run([exe, "config.json", "-s", "1"], capture_output=True, text=True, env=env, timeout=900)
